@@ -95,8 +95,12 @@ func genPlan(t *rapid.T) interface{} {
 }
 
 type world struct {
-	mu       sync.Mutex
-	run      *core.Run
+	mu  sync.Mutex
+	run *core.Run
+	// wantDur: the retention period each policy was given (at creation or by
+	// an acknowledged alteration) - the harness' own record, not read back
+	// from the metadata
+	wantDur  map[string]time.Duration
 	data     *meta.Data
 	failMeta int // number of metadata calls still to fail
 	nodes    []*node
@@ -123,6 +127,14 @@ func (m metaStub) Databases() []meta.DatabaseInfo {
 // expired is the harness' own statement of the expiry predicate.
 func expired(g meta.ShardGroupInfo, dur time.Duration, now time.Time) bool {
 	return dur != 0 && g.EndTime.Add(dur).Before(now)
+}
+
+// dur is the retention period the policy is supposed to have.
+func (w *world) dur(rp *meta.RetentionPolicyInfo) time.Duration {
+	if d, ok := w.wantDur[rp.Name]; ok {
+		return d
+	}
+	return rp.Duration
 }
 
 func (w *world) find(id uint64) (*meta.ShardGroupInfo, *meta.RetentionPolicyInfo) {
@@ -154,8 +166,8 @@ func (m metaStub) DeleteShardGroup(database, policy string, id uint64) error {
 		w.run.Fail("deleted-unknown-group", "", "retention asked to delete shard group %d which the metadata does not have", id)
 		return nil
 	}
-	if !g.Deleted() && !expired(*g, rp.Duration, now) {
-		w.run.Fail("live-group-marked-deleted", "", "at %v retention marked shard group %d [%v,%v) of policy %s (duration %v) deleted although it has not expired (end+duration=%v)", now.UTC(), id, g.StartTime.UTC(), g.EndTime.UTC(), rp.Name, rp.Duration, g.EndTime.Add(rp.Duration).UTC())
+	if !g.Deleted() && !expired(*g, w.dur(rp), now) {
+		w.run.Fail("live-group-marked-deleted", "", "at %v retention marked shard group %d [%v,%v) of policy %s (duration %v) deleted although it has not expired (end+duration=%v)", now.UTC(), id, g.StartTime.UTC(), g.EndTime.UTC(), rp.Name, w.dur(rp), g.EndTime.Add(w.dur(rp)).UTC())
 		return nil
 	}
 	next := w.data.Clone()
@@ -219,11 +231,11 @@ func (n *node) DeleteShard(id uint64) error {
 		w.run.Fail("unknown-shard-deleted", "", "node%d: retention deleted local shard %d which belongs to no shard group of the metadata", n.id, id)
 		return nil
 	}
-	if !grp.Deleted() && !expired(*grp, rpi.Duration, now) {
-		w.run.Fail("live-shard-deleted", "", "node%d at %v: retention deleted shard %d of group %d [%v,%v), policy %s duration %v: the group is neither marked deleted nor older than the retention period", n.id, now.UTC(), id, grp.ID, grp.StartTime.UTC(), grp.EndTime.UTC(), rpi.Name, rpi.Duration)
+	if !grp.Deleted() && !expired(*grp, w.dur(rpi), now) {
+		w.run.Fail("live-shard-deleted", "", "node%d at %v: retention deleted shard %d of group %d [%v,%v), policy %s duration %v: the group is neither marked deleted nor older than the retention period", n.id, now.UTC(), id, grp.ID, grp.StartTime.UTC(), grp.EndTime.UTC(), rpi.Name, w.dur(rpi))
 		return nil
 	}
-	if rpi.Duration == 0 && !grp.Deleted() {
+	if w.dur(rpi) == 0 && !grp.Deleted() {
 		w.run.Fail("infinite-policy-expired", "", "node%d: shard %d of infinite policy %s deleted", n.id, id, rpi.Name)
 		return nil
 	}
@@ -239,7 +251,7 @@ func (n *node) DeleteShard(id uint64) error {
 
 func exec(run *core.Run, pl interface{}) {
 	p := pl.(*plan)
-	w := &world{run: run, data: &meta.Data{}}
+	w := &world{run: run, data: &meta.Data{}, wantDur: map[string]time.Duration{}}
 	for i := 0; i < p.Nodes; i++ {
 		w.data.Index++
 		w.data.CreateDataNode(fmt.Sprintf("h%d:8086", i), fmt.Sprintf("h%d:8088", i))
@@ -254,6 +266,7 @@ func exec(run *core.Run, pl interface{}) {
 			run.Fail("harness-error", "", "CreateRetentionPolicy: %v", err)
 			return
 		}
+		w.wantDur[fmt.Sprintf("rp%d", i)] = d
 	}
 	cfg := retention.NewConfig()
 	cfg.CheckInterval = toml.Duration(interval)
@@ -301,7 +314,7 @@ func exec(run *core.Run, pl interface{}) {
 		case "group":
 			w.mu.Lock()
 			rp, _ := w.data.RetentionPolicy("db", rpName)
-			dur := rp.Duration
+			dur := w.wantDur[rpName]
 			w.mu.Unlock()
 			// choose a timestamp such that the group's end sits at now-duration+Off(+Nano)
 			now := time.Now()
@@ -348,6 +361,9 @@ func exec(run *core.Run, pl interface{}) {
 			})
 			run.Logf("op%d alter duration of %s to %v: %v", i, rpName, d, err)
 			if err == nil {
+				w.mu.Lock()
+				w.wantDur[rpName] = d
+				w.mu.Unlock()
 				run.Probe("duration-altered")
 			}
 		case "delgroup":
@@ -371,7 +387,7 @@ func exec(run *core.Run, pl interface{}) {
 			for _, db := range w.data.Databases {
 				for _, rp := range db.RetentionPolicies {
 					for _, g := range rp.ShardGroups {
-						if g.Truncated() && !g.Deleted() && rp.Duration != 0 {
+						if g.Truncated() && !g.Deleted() && w.wantDur[rp.Name] != 0 {
 							run.Probe("finite-group-truncated")
 						}
 					}
@@ -415,8 +431,8 @@ func exec(run *core.Run, pl interface{}) {
 		for _, rp := range db.RetentionPolicies {
 			for _, g := range rp.ShardGroups {
 				// expired for longer than the two passes just waited for
-				if !g.Deleted() && expired(g, rp.Duration, now.Add(-2*interval-time.Minute)) {
-					run.Fail("expired-group-not-marked-deleted", "", "group %d [%v,%v) of %s (duration %v) expired before %v but is still not marked deleted two enforcement passes after the last fault", g.ID, g.StartTime.UTC(), g.EndTime.UTC(), rp.Name, rp.Duration, now.Add(-2*interval).UTC())
+				if !g.Deleted() && expired(g, w.wantDur[rp.Name], now.Add(-2*interval-time.Minute)) {
+					run.Fail("expired-group-not-marked-deleted", "", "group %d [%v,%v) of %s (duration %v) expired before %v but is still not marked deleted two enforcement passes after the last fault", g.ID, g.StartTime.UTC(), g.EndTime.UTC(), rp.Name, w.wantDur[rp.Name], now.Add(-2*interval).UTC())
 				}
 			}
 		}
